@@ -1,11 +1,13 @@
 """C07 — reply routing honours the declared handler and outcome."""
-from .. import common as c, translate
+from .. import common as c, translate, rs2lean
 from ._replies_common import run_reply_stream
 
 THEOREMS = [("Sylvia.Thm.C07", "C07." + t) for t in
             ["unknown_id_errors", "success_runs_declared", "success_with_data", "success_runs_always", "error_runs_declared", "error_runs_always",
              "success_uncovered_passes_through", "error_uncovered_passes_through", "table_entries_compatible"]] + \
            [("Sylvia.Lemmas.Reply", "Sylvia.Reply.replyTable_ok"), ("Sylvia.Thm.Obl.Complete.C07", "Obl.extraction_complete_C07"), ("Sylvia.Thm.Obl.T.replyOn_documented", "Obl.replyOn_documented")]
+
+THEOREMS = THEOREMS + [("Sylvia.Thm.ReplyOnFn", "ReplyOnFn.excludes_eq"), ("Sylvia.Thm.ReplyOnFn", "ReplyOnFn.excludes_symmetric")]
 
 
 def run(ctx):
@@ -14,6 +16,11 @@ def run(ctx):
                                "L2 corpus harness (sv::dispatch_reply with echo handlers) + svmodel driver", "python statement of the expected reply behaviour"]
     ctx.assumptions += ["reply handlers return the contract's own error type (dispatch_reply performs no error conversion)"]
     translate.regenerate()
+    # function translator: ReplyOn::excludes -> Extracted/ReplyOnFns.lean (proved equal to the model's `Reply.excludes`)
+    ro_problems = rs2lean.regenerate("replyon")
+    ctx.cov["function_translator_replyon"] = {"source": "sylvia-derive/src/parser/attributes/msg.rs::ReplyOn::excludes", "problems": ro_problems}
+    if ro_problems:
+        ctx.obligation_failed("function-translator(replyon)", "; ".join(ro_problems)[:1500])
     if THEOREMS:
         c.prove(ctx, sorted({m for m, _ in THEOREMS}), THEOREMS)
     run_reply_stream(ctx, "L2-reply-routing", lambda tags: tags[0] in ("success", "error", "passthrough-ok", "passthrough-err", "unknown-id")
